@@ -112,8 +112,9 @@ nanlen = partial(_len, func="nanlen")
 def _var_std_wrapper(group_idx, array, engine, *, axis=-1, **kwargs):
     # Attempt to increase numerical stability by subtracting the first element.
     # https://en.wikipedia.org/wiki/Algorithms_for_calculating_variance
-    # Cast any unsigned types first
-    dtype = np.result_type(array, np.int8(-1) * array[0])
+    # Cast integers first: the difference of two int8 values does not fit int8
+    # (np.var computes integer input in float64 too)
+    dtype = np.float64 if array.dtype.kind in "iub" else array.dtype
     array = array.astype(dtype, copy=False)
     first = _get_aggregate(engine).aggregate(group_idx, array, func="nanfirst", axis=axis)
     array = array - first[..., group_idx]
